@@ -169,7 +169,7 @@ func ruleNS1(c *Ctx) {
 		// a duplicate-name error must exist, guarded by nothing but AllowDuplicateNames among the options
 		var dupErrs []*ast.CallExpr
 		InspectNoLit(f.Body(), func(n ast.Node) bool {
-			if call, ok := n.(*ast.CallExpr); ok && FuncCall(info, call, "json", "newDuplicateNameError") {
+			if call, ok := n.(*ast.CallExpr); ok && (FuncCall(info, call, "json", "newDuplicateNameError") || wrapsCall(p, f, call, "json", "newDuplicateNameError")) {
 				dupErrs = append(dupErrs, call)
 			}
 			return true
@@ -848,4 +848,22 @@ func namespaceInsertFunc(p *Program) *FuncInfo {
 		}
 	}
 	return nil
+}
+
+// wrapsCall reports whether call invokes a private helper of f (unexported, same package) whose body
+// (to depth 2) calls pkg.name: the helper then stands for that call at this site.
+func wrapsCall(p *Program, f *FuncInfo, call *ast.CallExpr, pkgShort, name string) bool {
+	for _, h := range helpersCalledIn(p, f, call) {
+		found := false
+		InspectNoLit(h.Body(), func(n ast.Node) bool {
+			if c2, ok := n.(*ast.CallExpr); ok && FuncCall(h.Info(), c2, pkgShort, name) {
+				found = true
+			}
+			return true
+		})
+		if found {
+			return true
+		}
+	}
+	return false
 }
